@@ -285,3 +285,49 @@ class Implication:
     def established(self, path, idx: int, want: bool, module=None, depth: int | None = None) -> bool:
         depth = self.depth if depth is None else depth
         return any(ev[0] == "test" and self.implies(ev[1], ev[2], want, module, depth) for ev in path[:idx])
+
+
+def expand_locals(fnode: ast.AST, e: ast.expr | None, depth: int = 3) -> ast.expr | None:
+    """e with every local name that has exactly one definition in fnode replaced by that definition (also through
+    `a, b = x, y` tuple assignments), repeatedly: `line=row + 1` with `row, col = n.start_point[0], n.start_point[1]`
+    becomes `n.start_point[0] + 1`.  Names with zero or several definitions (parameters, loop variables) stay."""
+    import copy
+
+    if e is None:
+        return None
+    defs: dict[str, list[ast.expr]] = {}
+    for n in ast.walk(fnode):
+        if isinstance(n, ast.Assign):
+            for t in n.targets:
+                if isinstance(t, ast.Name):
+                    defs.setdefault(t.id, []).append(n.value)
+                elif isinstance(t, (ast.Tuple, ast.List)) and isinstance(n.value, (ast.Tuple, ast.List)) and len(t.elts) == len(n.value.elts):
+                    for a, b in zip(t.elts, n.value.elts):
+                        if isinstance(a, ast.Name):
+                            defs.setdefault(a.id, []).append(b)
+                elif isinstance(t, (ast.Tuple, ast.List)):
+                    for a in t.elts:
+                        if isinstance(a, ast.Name):
+                            defs.setdefault(a.id, []).extend([n.value, n.value])  # opaque: never substituted
+        elif isinstance(n, (ast.AnnAssign,)) and isinstance(n.target, ast.Name) and n.value is not None:
+            defs.setdefault(n.target.id, []).append(n.value)
+        elif isinstance(n, (ast.For, ast.comprehension)):
+            for a in ast.walk(n.target):
+                if isinstance(a, ast.Name):
+                    defs.setdefault(a.id, []).extend([n.iter, n.iter])
+        elif isinstance(n, ast.AugAssign) and isinstance(n.target, ast.Name):
+            defs.setdefault(n.target.id, []).extend([n.value, n.value])
+
+    class S(ast.NodeTransformer):
+        def visit_Name(self, node):
+            if isinstance(node.ctx, ast.Load) and len(defs.get(node.id, ())) == 1:
+                return copy.deepcopy(defs[node.id][0])
+            return node
+
+    out = copy.deepcopy(e)
+    for _ in range(depth):
+        new = S().visit(out)
+        if ast.dump(new) == ast.dump(out):
+            break
+        out = new
+    return ast.fix_missing_locations(out)
